@@ -12,16 +12,14 @@ def ev (kind field : String) (idx : Nat) (args : List Val) : Event :=
   { id := { kind := kind, field := field, idx := idx }, args := args }
 
 /-- the callbacks one field contributes before its value is stored: factory (only when no value was
-    supplied), then converter on the raw value -/
+    supplied), then converter on the raw value (for a converter chain: every member, left to right, each on
+    the previous member's result, each given instance / field as IT requested: `convEventsOf`) -/
 def attrEvents (attrs : List Attr) (c : Call) (a : Attr) : List Event :=
   let given := if a.init then passed (params attrs) c a.alias else none
   let fac := match given, a.dflt with
     | none, .factory ts => [ev "factory" a.name 0 (factoryArgs ts)]
     | _, _ => []
-  let cv := match a.conv with
-    | some cnv => [ev "conv" a.name 0 (convEventArgs a cnv (C01.rawOf attrs c a))]
-    | none => []
-  fac ++ cv
+  fac ++ convEventsOf a (C01.rawOf attrs c a)
 
 def validatorEventsOf (attrs : List Attr) (c : Call) : List Event :=
   (attrs.filter participates).flatMap (fun a =>
